@@ -36,6 +36,8 @@ PKG = "btc_hd_wallet"
 class Tx(ast.NodeTransformer):
     def visit_Call(self, n):
         self.generic_visit(n)
+        if isinstance(n.func, ast.Name) and n.func.id == "super" and not n.args:
+            return n          # zero-argument super() needs the compiler's __class__ cell: leave it alone
         if any(isinstance(a, ast.Starred) for a in n.args) or any(k.arg is None for k in n.keywords):
             # f(*a, **k): keep the call shape
             return ast.copy_location(
@@ -792,7 +794,13 @@ def __sx_call__(f, *a, **k):
                 if bool(v == a[0]):
                     return i
             raise ValueError("not in list")
-        elif isinstance(slf, dict) and (id(slf) in _SIDE or (a and has_sym(a[0]))):
+        elif isinstance(slf, dict) and name == "update" and a and not isinstance(a[0], dict):
+            pairs = [tuple(p) for p in a[0]]          # iterators (zip, generators): materialise, then look at the keys
+            if id(slf) in _SIDE or any(has_sym(p[0]) for p in pairs) or any(has_sym(v) for v in k):
+                return _dict_method(slf, name, (pairs,) + tuple(a[1:]), k)
+            return slf.update(pairs, **k)
+        elif isinstance(slf, dict) and (id(slf) in _SIDE or (a and has_sym(a[0])) or
+                                        (name == "update" and a and isinstance(a[0], dict) and any(has_sym(kk) for kk in a[0]))):
             return _dict_method(slf, name, a, k)
         if any_sym(a, k) and not isinstance(slf, (list, dict, set)) and \
                 (slf is None or isinstance(slf, types.ModuleType) or isinstance(slf, type)):
